@@ -29,6 +29,7 @@ var Rigs = map[string]sim.Rig{
 	"C17l": {Name: "listener", Run: runListenerLimits},
 	"C17":  {Name: "limits", Run: runC17},
 	"C04":  {Name: "relay", Run: runRelay},
+	"C17p": {Name: "relay+limits", Run: runRelayMode("C17")},
 	"C08":  {Name: "loadfail", Run: runLoadfail, NoBubble: true},
 }
 
@@ -58,13 +59,17 @@ func runC20(c *sim.Ctl) {
 
 // runC17: body limits (site rig) or shared listener settings (listener rig).
 func runC17(c *sim.Ctl) {
-	if c.T.Stream("sub").Draw(2) == 0 {
+	switch c.T.Stream("sub").Draw(5) {
+	case 0, 1:
 		c.Params["part"] = "body-limits"
 		runSite("C17")(c)
-		return
+	case 2:
+		c.Params["part"] = "body-limits-proxied"
+		runRelayMode("C17")(c)
+	default:
+		c.Params["part"] = "shared-listener-settings"
+		runListenerLimits(c)
 	}
-	c.Params["part"] = "shared-listener-settings"
-	runListenerLimits(c)
 }
 
 func TestWorker(t *testing.T) { sim.WorkerMain(t, Rigs) }
